@@ -336,16 +336,30 @@ func genC03(r *Rng, e *Emitter, n int) {
 				sizes = []int{1 << 20}
 			}
 			e.tally("op=roundtrip")
-			e.emit("C03.rt", fmt.Sprintf("(%s %d %s %s)", c.name, ndr, t.sx(), sxInts(sizes)), guard(func() string {
-				bs, err := c.marshal(g, bo)
-				if err != nil {
-					return sxErr(err)
+			eofWith := r.chance(1, 3)
+			done := false
+			var bs []byte
+			var merr, e1, e2 error
+			var d1, d2 geom.T
+			consumed := 0
+			// the returned encoding and the decoded geometries are kept and rendered again after later
+			// calls: an encoding handed to the caller must stay the encoding of its geometry
+			e.emitR("C03.rt", fmt.Sprintf("(%s %d %s %s)", c.name, ndr, t.sx(), sxInts(sizes)), func() string {
+				if !done {
+					bs, merr = c.marshal(g, bo)
+					if merr == nil {
+						rd := &chunkReader{data: append(append([]byte{}, bs...), bs...), sizes: sizes, eofWith: eofWith}
+						d1, e1 = c.read(rd)
+						d2, e2 = c.read(rd)
+						consumed = rd.consumed
+					}
+					done = true
 				}
-				rd := &chunkReader{data: append(append([]byte{}, bs...), bs...), sizes: sizes, eofWith: r.chance(1, 3)}
-				o1 := obsRead(c.read(rd))
-				o2 := obsRead(c.read(rd))
-				return fmt.Sprintf("(ok %s %s %s %d)", hexOrDash(bs), o1, o2, rd.consumed)
-			}))
+				if merr != nil {
+					return sxErr(merr)
+				}
+				return fmt.Sprintf("(ok %s %s %s %d)", hexOrDash(bs), obsRead(d1, e1), obsRead(d2, e2), consumed)
+			})
 		case k < 8: // a writer that starts failing at byte k
 			full, _ := c.marshal(g, bo)
 			lim := r.Intn(len(full) + 3)
